@@ -1026,15 +1026,7 @@ func checkIsLocal(res *vlib.Result, a netip.Addr, caseID string) {
 
 func TestVerifC08(t *testing.T) {
 	res := vlib.NewResult("C08", "api-c08", "PRNG SDP offers/answers in pion's canonical layout (0-4 media sections, 0-12 candidates each interleaved with other attributes; host/srflx/prflx/relay, UDP/TCP; addresses on and around every range boundary, IPv4-mapped, mDNS, hostnames, malformed candidate lines), per-address sweeps, line-level mutations/enumeration, truncations and arbitrary strings through the real StripLocalAddresses; expected output computed from the input text by an RFC-based line classifier; non-trivial = canonical input (pion marshal∘unmarshal identity verified) with >=1 must-strip and >=1 must-keep candidate line, distinct by input hash")
-	defer func() {
-		// a panic outside a guarded call (unguarded code under test, or a harness
-		// bug) must never end as a complete, clean result
-		if e := recover(); e != nil {
-			st := vlib.ShortStack()
-			res.Violate("panic:outside-guard:"+panicSite(st), fmt.Sprintf("panic outside a guarded call: %v\n%s", e, st), map[string]interface{}{"case": "harness"})
-		}
-		res.Finish()
-	}()
+	defer res.Finish() // vlib records a panic outside any guard as violation "panic:outside-guard"
 	root := vlib.NewRand(vlib.Seed()).Split("c08")
 	sh, nsh := vlib.Shard()
 
